@@ -1268,13 +1268,18 @@ func runT10(p *an.Prog, r *an.Result) {
 	tag, _ := pkgConst(p, "parser", "TagTokenType")
 	type site struct {
 		typ int64
-		st  *ssa.Store
+		st  ssa.Instruction // where the token is appended to the token list
 	}
 	var sites []site
 	for _, st := range tokenFieldStores(p, fn) {
 		if fieldName(st.Addr.(*ssa.FieldAddr)) == "Type" {
 			if c, ok := an.ConstInt(st.Val); ok {
-				sites = append(sites, site{c, st})
+				em := tokenEmission(st)
+				if em == nil {
+					r.Bad(name, "token built but its append not found", st.Pos(), "the order rule follows each token literal to the append that emits it")
+					continue
+				}
+				sites = append(sites, site{c, em})
 			}
 		}
 	}
@@ -1282,7 +1287,7 @@ func runT10(p *an.Prog, r *an.Result) {
 		typ  int64
 		what string
 	}{{obj, "object"}, {tag, "tag"}} {
-		var ms *ssa.Store
+		var ms ssa.Instruction
 		for _, s := range sites {
 			if s.typ == main.typ {
 				ms = s.st
@@ -1305,7 +1310,7 @@ func runT10(p *an.Prog, r *an.Result) {
 			return nil
 		}
 		ag := armGuard(ms)
-		var lefts, rights []*ssa.Store
+		var lefts, rights []ssa.Instruction
 		for _, s := range sites {
 			if armGuard(s.st) != ag || ag == nil {
 				continue
@@ -1352,4 +1357,48 @@ func reachesBlockWithin(from, to, _ *ssa.BasicBlock) bool {
 		return false
 	}
 	return dfs(from)
+}
+
+// tokenEmission follows a Token literal (the struct whose Type field st sets)
+// to the append call that puts it on a token list: literal -> load -> varargs
+// element -> slice -> append.
+func tokenEmission(st *ssa.Store) ssa.Instruction {
+	fa, ok := st.Addr.(*ssa.FieldAddr)
+	if !ok {
+		return nil
+	}
+	var out ssa.Instruction
+	seen := map[ssa.Value]bool{}
+	var walk func(v ssa.Value, depth int)
+	walk = func(v ssa.Value, depth int) {
+		if v == nil || seen[v] || depth > 8 || out != nil || v.Referrers() == nil {
+			return
+		}
+		seen[v] = true
+		for _, u := range *v.Referrers() {
+			switch x := u.(type) {
+			case *ssa.UnOp:
+				if x.Op == token.MUL {
+					walk(x, depth+1)
+				}
+			case *ssa.Store:
+				if x.Val == v {
+					if ia, ok := x.Addr.(*ssa.IndexAddr); ok {
+						walk(ia.X, depth+1)
+					} else if al, ok := x.Addr.(*ssa.Alloc); ok {
+						walk(al, depth+1)
+					}
+				}
+			case *ssa.Slice:
+				walk(x, depth+1)
+			case *ssa.Call:
+				if b, ok := x.Call.Value.(*ssa.Builtin); ok && b.Name() == "append" && len(x.Call.Args) == 2 && x.Call.Args[1] == v {
+					out = x
+					return
+				}
+			}
+		}
+	}
+	walk(fa.X, 0)
+	return out
 }
